@@ -31,12 +31,14 @@ PID = 'C17'
 LEVEL = 'exploration'
 RULE = (
     'seeded random pipelines of 1..8 bash jobs (no image => plain bash subprocesses): a random DAG over a hidden order '
-    '(edge density 0.15..0.8) or that DAG plus cycle-closing edges (self-loop, 2-cycle, long back edge); every edge is '
+    '(edge density 0.15..0.8) or (30 %) that DAG plus cycle-closing edges (self-loop, 2-cycle, long back edge, ring of '
+    'resource-induced edges only); a quarter of the DAGs get the motif failed job <- succeeding always-run job <- ordinary job; every edge is '
     'explicit (depends_on), resource-induced (consumer command mentions producer.out), both, or through a declared '
     'resource group (whole group or one member); job creation, depends_on, always_run and command() calls are emitted '
     'as one random linear extension of the only constraints the DSL imposes (create before use, producer command before '
     'consumer command); random always_run flags and failing sets. A case is non-trivial when it has >= 2 jobs and >= 1 '
-    'edge; distinct by (edge list with kinds, always_run vector, failing vector, creation order).'
+    'edge; distinct by (edge list with kinds, always_run vector, failing vector, creation order). quick 150 pipelines, '
+    'thorough 16 x 300.'
 )
 ASSUMPTIONS = [
     '/bin/bash and /bin/sh execute `echo >> file`, `cat`, `exit N` faithfully; appends of < 100 bytes to the shared log by sequential subprocesses are ordered',
